@@ -35,7 +35,7 @@ MANIFEST = dict(
          "hand-written model tied to hostlist.c by differential execution of the real source built from /repo's "
          "working tree plus constants and behavioural probes regenerated from /repo (defect switches D19/D20/D24 "
          "probed); qsort modelled as a stable sort by the comparator (order after uniq/sort compared as the "
-         "implementation's choice); hostlist_sort/hostlist_coalesce exercised against the specification only; "
+         "implementation's choice); hostlist_sort incl. hostlist_coalesce / hostlist_collapse is in the model (repaired hostrange_intersect) and compared record by record; "
          "harness, generators, gcc, ASan/UBSan trusted")
 
 NAME_OPS = ("push", "find", "delete", "delete_host")
@@ -616,7 +616,7 @@ def judge(ctx, hl, s, ans, crash, m, sp, dist, shrinking=False):
     states = [split_state(x)[1] for x in sp]
     sp = [split_state(x)[0] for x in sp]
     # --- correspondence: implementation vs model, op by op, up to the first op the model does not cover
-    # (hostlist_sort / hostlist_coalesce are exercised against the specification only)
+    # (hostlist_sort / hostlist_coalesce / hostlist_collapse are modelled: Hostlist/EditSort.lean)
     mstop = next((i for i, a in enumerate(m) if a == "unsupported"), len(m))
     if not hasattr(hl, "flags_cache"):
         hl.flags_cache = hl.probed()
